@@ -196,7 +196,11 @@ func (e *Exec) checkDecreases(li *loopInfo, reach string, h *Heap, at *ssa.Basic
 
 func (e *Exec) noVariant(li *loopInfo) {
 	s := fmt.Sprintf("loop %d of %s has no variant (termination not proved)", li.ord, qualName(e.fn))
-	if mt := mapRangeOf(li); mt != nil && li.modset != nil && !li.modset.all {
+	if stringRangeOf(li) {
+		// structural rule, no obligation: a string is immutable and finite and the iterator was created outside
+		// the loop, so a range over it visits at most len(s) positions.
+		s = fmt.Sprintf("loop %d of %s ranges over a string (immutable, iterator created outside the loop): finite by the semantics of range, no variant needed (structural rule, not an SMT obligation)", li.ord, qualName(e.fn))
+	} else if mt := mapRangeOf(li); mt != nil && li.modset != nil && !li.modset.all {
 		// structural rule, no obligation: a range over a map visits each entry present at entry at most once, so the
 		// loop ends provided nothing inside it (callees included: their modsets are merged into the loop's) inserts
 		// into a map of the same key and value sorts. Deletions do not matter. Termination of the body itself
@@ -208,6 +212,17 @@ func (e *Exec) noVariant(li *loopInfo) {
 		}
 	}
 	e.vc.noVariant[s] = true
+}
+
+// stringRangeOf reports whether the loop header is the `next` of a string iterator created outside the loop.
+func stringRangeOf(li *loopInfo) bool {
+	for _, ins := range li.header.Instrs {
+		if nx, ok := ins.(*ssa.Next); ok && nx.IsString {
+			rg, ok := nx.Iter.(*ssa.Range)
+			return ok && !li.body[rg.Block()]
+		}
+	}
+	return false
 }
 
 // mapRangeOf returns the map type a loop ranges over when its header is the `next` of a map iterator that was
